@@ -34,6 +34,8 @@ inductive IExpr where
   | max (a b : IExpr)
   | arr1 (f : Nat) (i : IExpr)
   | arr2 (f : Nat) (i j : IExpr)
+  | arr3 (f : Nat) (i j k : IExpr)
+  | powe (a b : IExpr)          -- `a ** b` with an arbitrary (symbolic, possibly negative) integer exponent
   deriving DecidableEq, Repr, Inhabited
 
 /-- integer valuation: scalars and (uninterpreted) integer arrays of rank 1 and 2 -/
@@ -41,12 +43,14 @@ structure Env where
   var : Nat → Int
   f1 : Nat → Int → Int
   f2 : Nat → Int → Int → Int
+  f3 : Nat → Int → Int → Int → Int
 
 /-- what SymPy quantifies over: symbols are arbitrary (here: rational) numbers, arrays arbitrary functions -/
 structure QEnv where
   var : Nat → Rat
   f1 : Nat → Rat → Rat
   f2 : Nat → Rat → Rat → Rat
+  f3 : Nat → Rat → Rat → Rat → Rat
 
 def imin (a b : Int) : Int := if a ≤ b then a else b
 def imax (a b : Int) : Int := if a ≤ b then b else a
@@ -54,6 +58,13 @@ def qmin (a b : Rat) : Rat := if a ≤ b then a else b
 def qmax (a b : Rat) : Rat := if a ≤ b then b else a
 /-- SymPy `Mod`: result has the sign of the divisor (floored) -/
 def qmod (a b : Rat) : Rat := a - b * ((a / b).floor : Int)
+
+/-- Fortran integer power: a negative exponent is `1 / a**(-b)` with truncating division -/
+def ipow (a b : Int) : Int := if 0 ≤ b then a ^ b.toNat else Int.tdiv 1 (a ^ (-b).toNat)
+/-- rational power with an integer exponent (what SymPy computes for integer-valued exponents) -/
+def qzpow (q : Rat) (z : Int) : Rat := if 0 ≤ z then q ^ z.toNat else (q ^ (-z).toNat)⁻¹
+/-- SymPy power: only integer-valued exponents are modelled (others denote 0 here) -/
+def qpow (q e : Rat) : Rat := if e.den = 1 then qzpow q e.num else 0
 
 /-- Fortran value (total: `x/0 = 0`, `mod(x,0) = x` as in Lean; see `defined`) -/
 def evalF : IExpr → Env → Int
@@ -70,6 +81,8 @@ def evalF : IExpr → Env → Int
   | .max a b, ρ => imax (evalF a ρ) (evalF b ρ)
   | .arr1 f i, ρ => ρ.f1 f (evalF i ρ)
   | .arr2 f i j, ρ => ρ.f2 f (evalF i ρ) (evalF j ρ)
+  | .arr3 f i j k, ρ => ρ.f3 f (evalF i ρ) (evalF j ρ) (evalF k ρ)
+  | .powe a b, ρ => ipow (evalF a ρ) (evalF b ρ)
 
 /-- the Fortran evaluation meets no zero divisor -/
 def defined : IExpr → Env → Bool
@@ -86,6 +99,8 @@ def defined : IExpr → Env → Bool
   | .max a b, ρ => defined a ρ && defined b ρ
   | .arr1 _ i, ρ => defined i ρ
   | .arr2 _ i j, ρ => defined i ρ && defined j ρ
+  | .arr3 _ i j k, ρ => defined i ρ && defined j ρ && defined k ρ
+  | .powe a b, ρ => defined a ρ && defined b ρ && !(evalF a ρ == 0 && evalF b ρ < 0)
 
 /-- denotation of a (translated) expression for SymPy -/
 def evalQ : IExpr → QEnv → Rat
@@ -102,15 +117,20 @@ def evalQ : IExpr → QEnv → Rat
   | .max a b, ρ => qmax (evalQ a ρ) (evalQ b ρ)
   | .arr1 f i, ρ => ρ.f1 f (evalQ i ρ)
   | .arr2 f i j, ρ => ρ.f2 f (evalQ i ρ) (evalQ j ρ)
+  | .arr3 f i j k, ρ => ρ.f3 f (evalQ i ρ) (evalQ j ρ) (evalQ k ρ)
+  | .powe a b, ρ => qpow (evalQ a ρ) (evalQ b ρ)
 
 /-- the rational valuation that extends an integer valuation -/
 def liftEnv (ρ : Env) : QEnv where
   var v := (ρ.var v : Rat)
   f1 f q := if q.den = 1 then (ρ.f1 f q.num : Rat) else 0
   f2 f p q := if p.den = 1 ∧ q.den = 1 then (ρ.f2 f p.num q.num : Rat) else 0
+  f3 f p q r := if p.den = 1 ∧ q.den = 1 ∧ r.den = 1 then (ρ.f3 f p.num q.num r.num : Rat) else 0
 
 def Env.set (ρ : Env) (x : Nat) (z : Int) : Env :=
   { ρ with var := fun v => if v = x then z else ρ.var v }
+def QEnv.set (ρ : QEnv) (x : Nat) (q : Rat) : QEnv :=
+  { ρ with var := fun v => if v = x then q else ρ.var v }
 
 /-! ## The SymPyWriter translation -/
 
@@ -137,6 +157,10 @@ def toSymAux (brk : Bool) : IExpr → Option Nat → IExpr
   | .max a b, acc => wrapPow acc (.max (toSymAux brk a none) (toSymAux brk b none))
   | .arr1 f i, acc => wrapPow acc (.arr1 f (toSymAux brk i none))
   | .arr2 f i j, acc => wrapPow acc (.arr2 f (toSymAux brk i none) (toSymAux brk j none))
+  | .arr3 f i j k, acc => wrapPow acc (.arr3 f (toSymAux brk i none) (toSymAux brk j none) (toSymAux brk k none))
+  -- symbolic exponents: faithful for a bracketing writer (the deployed `brk = true`); the legacy `brk = false`
+  -- translation is only meant for literal exponent chains (the pinned-writer witnesses)
+  | .powe a b, acc => wrapPow acc (.powe (toSymAux brk a none) (toSymAux brk b none))
 
 def toSym (brk : Bool) (e : IExpr) : IExpr := toSymAux brk e none
 
@@ -145,7 +169,7 @@ def isPow : IExpr → Bool
   | _ => false
 
 /-- the fragment on which the translation is value preserving: no `/`, no MOD and (when the writer
-does not bracket) no left-nested `**` -/
+does not bracket) no left-nested `**`; exponents are natural literals (`powe` is excluded) -/
 def frag (brk : Bool) : IExpr → Bool
   | .lit _ => true
   | .var _ => true
@@ -160,6 +184,8 @@ def frag (brk : Bool) : IExpr → Bool
   | .max a b => frag brk a && frag brk b
   | .arr1 _ i => frag brk i
   | .arr2 _ i j => frag brk i && frag brk j
+  | .arr3 _ i j k => frag brk i && frag brk j && frag brk k
+  | .powe _ _ => false
 
 /-- the polynomial fragment (decided by `normQ` without any assumption about SymPy) -/
 def isPoly : IExpr → Bool
@@ -272,5 +298,42 @@ def modelSolve (brk : Bool) (x : Nat) (e1 e2 : IExpr) : SolveRes :=
     | [] => if rest = [] then .independent else .empty
     | [(m, a)] => if m = [x] ∧ a ≠ 0 then .one (mulTerm [] (-1 / a) rest) else .unknown
     | _ => .unknown
+
+/-! ## `solve_equal_for`: what the Python does with the set returned by `sympy.solveset` -/
+
+/-- the kinds of results of `solvers.solveset(exp1 - exp2, symbol)` the code distinguishes; `σ` is the type of a
+reported solution -/
+inductive SolveSet (σ : Type) where
+  | complexes                 -- `solution == Complexes`
+  | conditionSet              -- `isinstance(solution, ConditionSet)`
+  | imageSet                  -- `ImageSet`
+  | union                     -- `Union`
+  | empty                     -- `EmptySet`
+  | finite (sols : List σ)    -- `FiniteSet`
+  | other                     -- Interval, Intersection, …
+
+/-- the value returned (or the exception raised) by `solve_equal_for` -/
+inductive PySolve (σ : Type) where
+  | independent               -- the string "independent"
+  | sols (l : List σ)         -- a Python set of solutions (possibly empty)
+  | valueError                -- `raise ValueError("Unexpected solution …")`
+
+/-- mirror of the `if` cascade of `SymbolicMaths.solve_equal_for` -/
+def pySolve {σ : Type} : SolveSet σ → PySolve σ
+  | .complexes => .independent
+  | .conditionSet => .independent
+  | .imageSet => .independent
+  | .union => .independent
+  | .empty => .sols []
+  | .finite l => .sols l
+  | .other => .valueError
+
+/-- the executable linear solver expressed as a `solveset` result -/
+def modelSolveSet (brk : Bool) (x : Nat) (e1 e2 : IExpr) : Option (SolveSet Poly) :=
+  match modelSolve brk x e1 e2 with
+  | .independent => some .complexes
+  | .empty => some .empty
+  | .one s => some (.finite [s])
+  | .unknown => none
 
 end C17
